@@ -121,7 +121,7 @@ impl PublicInput {
         (prod, total_length)
     }
 //@end
-//@repo crates/air/src/public_memory.rs fn PublicInput::get_hash props=C13 rules=H_hash_dynamic_params,H_hash_segments,H_hash_headers
+//@repo crates/air/src/public_memory.rs fn PublicInput::get_hash props=C01,C02,C13 rules=H_hash_dynamic_params,H_hash_segments,H_hash_headers
     pub fn get_hash(&self, n_verifier_friendly_commitment_layers: Felt) -> (r: Felt)
         requires
             self.continuous_page_headers@.len() < usize::MAX, // [C18:header-count+1-fits-usize]
